@@ -10,7 +10,7 @@ from . import _syncpairs as sp
 PROP = "C15"
 LEVEL = "exploration"
 WORKERS = {"quick": 4, "thorough": 16}
-BUDGET = {"quick": 60, "thorough": 600}
+BUDGET = {"quick": 100, "thorough": 600}
 TECHNIQUE = (
     "Hypothesis pair generator biased to pairs where a real sync would do something x {dry_run, deep, exclude, "
     "selection, parallel} x 4 entry points; full before/after snapshots (bytes, directories, mtimes) of both "
